@@ -162,7 +162,7 @@ CLOSED = COG_GENERAL + ["Noh", "Noh2", "Noh2Cog"]
 
 
 def gen_closed(rng, i, tier):
-    return dict(entry=CLOSED[i % len(CLOSED)], seed=int(rng.integers(2 ** 31)))
+    return dict(entry=CLOSED[i % len(CLOSED)], seed=int(rng.integers(2 ** 31)), ints=bool((i // len(CLOSED)) % 3 == 2))
 
 
 def run_closed(ctx, p):
@@ -170,7 +170,12 @@ def run_closed(ctx, p):
     e = C.CAT[ent]
     cls = C.load(e["path"])
     rng = np.random.default_rng(p["seed"])
-    d = C.draw(ctx, cls, ent, rng, n=4)
+    # every third repetition of a class: all its scale parameters are whole numbers given as Python ints
+    rate, C.INT_RATE = C.INT_RATE, (1.0 if p.get("ints") else C.INT_RATE)
+    try:
+        d = C.draw(ctx, cls, ent, rng, n=4)
+    finally:
+        C.INT_RATE = rate
     if d is None:
         raise Skip("no_admissible_draw")
     s, geom, t0, kw = d["solver"], d["geom"], d["t"], d["full"]
